@@ -176,7 +176,7 @@ def closeIfOpen (r : Ring) : Except Fault Ring :=
   | some l, some h => .ok (if l = h then r else r ++ [h])
   | _, _ => .error .indexOutOfRange
 
-/-- `Polygon.Centroid` -/
+/-- the loop of `Polygon.Centroid` (below its range guard) -/
 def polygonCentroidAcc : Poly → CAcc → Except Fault CAcc
   | [], s => .ok s
   | r :: rest, s => do
@@ -184,7 +184,7 @@ def polygonCentroidAcc : Poly → CAcc → Except Fault CAcc
     let rc ← closeIfOpen r
     polygonCentroidAcc rest (s.add (pairSum cxF rc) (pairSum cyF rc) a a)
 
-def polygonCentroid (p : Poly) : Except Fault (FV × FV) :=
+def polygonCentroidCore (p : Poly) : Except Fault (FV × FV) :=
   (polygonCentroidAcc p .zero).map CAcc.finish
 
 /-- `op.Centroid` on a Polygon: no closing step, no fault on an empty ring -/
@@ -194,7 +194,7 @@ def opCentroidAcc : Poly → CAcc → CAcc
     let a := opRingArea r
     opCentroidAcc rest (s.add (pairSum cxF r) (pairSum cyF r) a a)
 
-def opCentroid (p : Poly) : FV × FV := (opCentroidAcc p .zero).finish
+def opCentroidCore (p : Poly) : FV × FV := (opCentroidAcc p .zero).finish
 
 /-- inner loop of the FIXED `MultiPolygon.Centroid`: weight `a = area(r, i, p, b)` (hole-signed),
 ring centroid `= sums / (6 * signedarea(r))`. -/
@@ -207,7 +207,7 @@ def mpCentroidAcc : MPoly → CAcc → CAcc
   | [], s => s
   | p :: rest, s => mpCentroidAcc rest (mpCentroidRings (p.length == 1) (withOthers [] p) s)
 
-def multiPolygonCentroid (mp : MPoly) : FV × FV := (mpCentroidAcc mp .zero).finish
+def multiPolygonCentroidCore (mp : MPoly) : FV × FV := (mpCentroidAcc mp .zero).finish
 
 /-- the code before the fix (`cx /= 6 * a` with `a` the hole-signed absolute area); kept for the
 negative theorem `C03_mcentroid_unfixed_wrong`. -/
@@ -220,6 +220,56 @@ def mpCentroidAccOld : MPoly → CAcc → CAcc
   | [], s => s
   | p :: rest, s => mpCentroidAccOld rest (mpCentroidRingsOld (p.length == 1) (withOthers [] p) s)
 def multiPolygonCentroidOld (mp : MPoly) : FV × FV := (mpCentroidAccOld mp .zero).finish
+
+/-! ## range guard of the centroids (fix 4edcec2)
+
+`Polygon.Centroid`, `MultiPolygon.Centroid` and `op.Centroid` now begin with
+`if k := centroidScale(p); k != 1 { c := p.scaled(k).Centroid(); return Point{c.X * k, c.Y * k} }`:
+when the largest |coordinate| is outside `[2^-300, 2^300]` the centroid of a copy divided by a power
+of two is calculated by the loops above (`…Core`) and multiplied back. -/
+
+def maxAbsCoord (rings : Poly) : Rat :=
+  rings.foldl (fun m r => r.foldl (fun m v => max m (max (absR v.x) (absR v.y))) m) 0
+
+def pow2 (i : Int) : Rat := if 0 ≤ i then (2 : Rat) ^ i.toNat else 1 / (2 : Rat) ^ (-i).toNat
+
+/-- `math.Ldexp(1, e-1)` with `_, e = math.Frexp(m)`: the power of two `k` with `k ≤ m < 2k` (`m > 0`) -/
+def pow2Floor (m : Rat) : Rat :=
+  let i : Int := (m.num.toNat.log2 : Int) - (m.den.log2 : Int)
+  if pow2 i ≤ m then pow2 i else pow2 (i - 1)
+
+/-- `centroidScale`: `none` stands for the returned 1 (no rescaling) -/
+def centScale (rings : Poly) : Option Rat :=
+  let m := maxAbsCoord rings
+  if pow2 300 ≤ m ∨ (0 < m ∧ m ≤ pow2 (-300)) then some (pow2Floor m) else none
+
+/-- `Polygon.scaled(k)` -/
+def scaleRing (k : Rat) (r : Ring) : Ring := r.map fun v => ⟨v.x / k, v.y / k⟩
+def scalePoly (k : Rat) (p : Poly) : Poly := p.map (scaleRing k)
+
+/-- `c.X * k` for a positive finite `k`: infinities and NaN stay what they are -/
+def FQ.mulPos (k : Rat) : FQ → FQ
+  | .fin q => .fin (q * k)
+  | x => x
+def unscale (k : Rat) (c : FV × FV) : FV × FV := (c.1.mulPos k, c.2.mulPos k)
+
+/-- `Polygon.Centroid` -/
+def polygonCentroid (p : Poly) : Except Fault (FV × FV) :=
+  match centScale p with
+  | some k => (polygonCentroidCore (scalePoly k p)).map (unscale k)
+  | none => polygonCentroidCore p
+
+/-- `op.Centroid` on a Polygon -/
+def opCentroid (p : Poly) : FV × FV :=
+  match centScale p with
+  | some k => unscale k (opCentroidCore (scalePoly k p))
+  | none => opCentroidCore p
+
+/-- `MultiPolygon.Centroid` -/
+def multiPolygonCentroid (mp : MPoly) : FV × FV :=
+  match centScale mp.flatten with
+  | some k => unscale k (multiPolygonCentroidCore (mp.map (scalePoly k)))
+  | none => multiPolygonCentroidCore mp
 
 /-! ## bounds.go (read only) -/
 def boundsArea (mn mx : P) : Rat := (mx.x - mn.x) * (mx.y - mn.y)
